@@ -51,7 +51,9 @@ SPEC = dict(
              "regenerated code (c14_src_wire) and the framing lemma of the regenerated serialize_field for every content (c14_src_string_lengths). "
              "BlockIdExt.__init__ / to_bytes / from_bytes / __eq__ / __hash__ of tl/block.py are regenerated the same way and proved equal to the "
              "model's toBytes / fromBytes / pyEq / pyHash for all ids, so the byte round trip and eq => same hash hold of the regenerated code "
-             "(c14_src_blockid). "
+             "(c14_src_blockid); BlockIdExt.to_dict / from_dict and BlockId.__init__ / to_dict / from_dict are regenerated too (__init__ read a second time "
+             "with the dynamically typed arguments from_dict passes) and proved to be the model's toDict / fromDict for all ids and dicts, with both "
+             "round trips and the masterchain shard for a missing shard (c14_src_blockid_dict). "
              "The PARSER TlSchemas.deserialize is regenerated too (one Lean definition per loop body: the call with the id lookup, the field "
              "loop with the flags test through bin(), the value of a field - fixed-size reads, bytes/string framing, the auto-deserialise "
              "branch with its `while j < byte_len` loop and the untouchables, vectors with the guard of fix 110bf4a and the one-field pseudo "
@@ -533,6 +535,13 @@ def check_blockid(ctx, W, B):
     st, r = _call(via_tl)
     if st != 'ok' or not (r == a):
         ctx.fail('blockid:tl', 'BlockIdExt -> dict -> TL -> dict -> BlockIdExt changed the id', v, repr(r), a.to_dict())
+    # a missing / None shard is the masterchain shard 0x8000000000000000 (c14_src_blockid_dict, last clause), for both classes and both entry points
+    short = {'workchain': -1, 'seqno': 5, 'root_hash': bytes(range(32)).hex(), 'file_hash': bytes(32).hex()}
+    st, r = _call(lambda: (BlockIdExt(-1, None, 5, bytes(32), bytes(32)).shard, BlockIdExt.from_dict(dict(short)).shard, BlockId(-1, None, 5).shard,
+                           BlockId.from_dict({'workchain': -1, 'seqno': 5}).shard))
+    ctx.case(('blockid-default-shard',), nontrivial=True)
+    if st != 'ok' or r != (-2 ** 63,) * 4:
+        ctx.fail('blockid:default-shard', 'a block id built without a shard does not get the masterchain shard -2^63', short, r, (-2 ** 63,) * 4)
 
 
 def check_crc(ctx, W):
